@@ -130,6 +130,8 @@ func main() {
 		runHist(o, rng, thorough, *replay, "mal")
 	case "frag":
 		runHist(o, rng, thorough, *replay, "frag")
+	case "fragboot":
+		runHist(o, rng, thorough, *replay, "fragboot")
 	case "valid":
 		runValid(o, rng, thorough)
 	default:
